@@ -5,7 +5,7 @@
    Regime N3 (DESIGN 2.4): real-number semantics; floating-point rounding is not verified. *)
 From Coq Require Import ZArith.
 From mathcomp Require Import all_ssreflect all_algebra.
-From DV Require Import Model.C14_exec Proofs.C14_RankOne Proofs.C14_Elitist Proofs.C14_Active Proofs.C14_MO Proofs.C14_Refine Proofs.C14_PlainSPD.
+From DV Require Import Model.C14_exec Proofs.C14_RankOne Proofs.C14_Elitist Proofs.C14_Active Proofs.C14_MO Proofs.C14_Refine Proofs.C14_PlainSPD Proofs.C14_MOHistory.
 Import Order.TTheory GRing.Theory Num.Theory.
 Set Implicit Arguments. Unset Strict Implicit. Unset Printing Implicit Defensive.
 Local Open Scope ring_scope.
@@ -395,6 +395,23 @@ Theorem C14_model_active_rank1update :
           alpha *: (mx_of n (as_A st) *m (mx_of n (as_A st))^T) + beta *: (v *m v^T)].
 Proof. move=> R e r n; exact: rank1update_factors. Qed.
 Print Assumptions C14_model_active_rank1update.
+
+(* multi-objective strategy, whole histories from __init__ (any draws, any evaluation function
+   returning d objectives; hypotheses draws_ok: lambda rows per draw, lambda parent draws when
+   lambda != mu, indicator indices in range): after every round there are exactly mu parents, all
+   per-parent lists have mu well-formed entries, and every stored inverse factor is the inverse of
+   its factor (minv = wf_ms /\ inv_ok_ms /\ sizes = mu /\ fitness tuples of length d) *)
+Theorem C14_mo_history_keeps_mu_and_inverse :
+  forall (R : rcfType) (exp_ round_ : R -> R) (n d : nat) (P : mparams (T:=R)) (evalf : seq R -> seq R),
+  0 < mp_ccov P < 1 -> 0 <= mp_cc P <= 1 -> (0 < mp_mu P)%nat -> (0 < mp_lambda P)%nat ->
+  (forall x, size (evalf x) = d) ->
+  forall (population : seq (seq R * seq R)) sigma draws,
+  size population = mp_mu P ->
+  all (fun xw : seq R * seq R => wfv n xw.1 && (size xw.2 == d)) population ->
+  draws_ok exp_ round_ P evalf (mo_init (ROps exp_ round_) n P population sigma) draws ->
+  minv n d P (mo_run (ROps exp_ round_) P evalf (mo_init (ROps exp_ round_) n P population sigma) draws).
+Proof. move=> R e r n d P evalf c1 c2 m0 l0 es pop sg draws; exact: mo_history_from_init. Qed.
+Print Assumptions C14_mo_history_keeps_mu_and_inverse.
 
 (* ========================================================================================= *)
 (* non-vacuity: the hypotheses are satisfiable                                                   *)
